@@ -243,6 +243,20 @@ func c18MiscCases(rng *rand.Rand) []c18Case {
 		}
 		out = append(out, c18Case{setup, a, "bitfield-multi"})
 	}
+	// several OVERFLOW directives in one command: each applies to the operations after it, also when it switches back to WRAP
+	for _, m1 := range []string{"WRAP", "SAT", "FAIL"} {
+		for _, m2 := range []string{"WRAP", "SAT", "FAIL"} {
+			for _, typ := range []string{"u8", "i8", "u4", "i16"} {
+				for _, base := range []string{"\x00\x00\x00", "\xf0\x7f\x80"} {
+					setup := [][]string{{"SET", "b0", base}}
+					out = append(out,
+						c18Case{setup, []string{"BITFIELD", "b0", "OVERFLOW", m1, "INCRBY", typ, "0", "200", "OVERFLOW", m2, "INCRBY", typ, "0", "100", "GET", typ, "0"}, "bitfield-overflow-pairs"},
+						c18Case{setup, []string{"BITFIELD", "b0", "OVERFLOW", m1, "SET", typ, "8", "70000", "OVERFLOW", m2, "INCRBY", typ, "8", "-300", "INCRBY", typ, "8", "32000"}, "bitfield-overflow-pairs"},
+						c18Case{setup, []string{"BITFIELD", "b0", "INCRBY", typ, "0", "250", "OVERFLOW", m1, "INCRBY", typ, "0", "250", "OVERFLOW", m2, "OVERFLOW", m1, "INCRBY", typ, "0", "-129"}, "bitfield-overflow-pairs"})
+				}
+			}
+		}
+	}
 	// invalid BITFIELD forms
 	for _, a := range [][]string{{"BITFIELD", "b0", "GET", "u64", "0"}, {"BITFIELD", "b0", "GET", "i65", "0"}, {"BITFIELD", "b0", "GET", "u0", "0"}, {"BITFIELD", "b0", "GET", "x8", "0"},
 		{"BITFIELD", "b0", "GET", "u8", "-1"}, {"BITFIELD", "b0", "GET", "u8"}, {"BITFIELD", "b0", "SET", "u8", "0"}, {"BITFIELD", "b0", "OVERFLOW", "BOGUS"}, {"BITFIELD", "b0", "OVERFLOW"},
